@@ -158,7 +158,7 @@ def main():
         }],
         "checks": checks,
         "not_applicable": na,
-        "notes": "Exit 0 = held on everything observed; exit 1 + VIOLATION line = violation not listed in known_findings.jsonl; exit 2 + INCONCLUSIVE line = monitors could not decide (never on the unchanged tree). VERIF_SEED selects the seeded case lists.",
+        "notes": "Exit 0 = held on everything observed; exit 1 + VIOLATION line = violation not listed in known_findings.txt; exit 2 + INCONCLUSIVE line = monitors could not decide (never on the unchanged tree). VERIF_SEED selects the seeded case lists.",
     }
     with open(os.path.join(ROOT, "MANIFEST.json"), "w") as f:
         json.dump(man, f, indent=1)
